@@ -186,7 +186,12 @@ def decLimit (children : List Node) : Except Err (Option Nat) :=
         let digits := trimAscii (chardata nc).toList
         if digits.isEmpty then .error .badRequest else
         (match Std.Decimal.readDigits 0 digits with
-         | some v => .ok (some v)
+         | some v =>
+           -- `NResults uint` (64 bit): larger numbers do not parse; `int(NResults)` wraps values from 2^63 on to a
+           -- non-positive limit, which is answered like nresults 0
+           if v ≥ 18446744073709551616 then .error .badRequest
+           else if v ≥ 9223372036854775808 then .ok (some 0)
+           else .ok (some v)
          | none => .error .badRequest)
       | some _ => .ok (some 0)
     | _ => .ok none
